@@ -7,11 +7,6 @@ from typing import TYPE_CHECKING, Any, Generic, Literal, TypeVar
 import numpy as np
 
 from quansino.integrators.displacement import Verlet
-from quansino.mc.contexts import (
-    Context,
-    DisplacementContext,
-    HamiltonianDisplacementContext,
-)
 from quansino.moves.composite import CompositeMove
 from quansino.moves.core import BaseMove
 from quansino.operations.displacement import Ball
@@ -21,10 +16,17 @@ from quansino.utils.dynamics import maxwell_boltzmann_distribution
 if TYPE_CHECKING:
     from collections.abc import Callable
 
+    from quansino.mc.contexts import (
+        DisplacementContext,
+        HamiltonianDisplacementContext,
+    )
     from quansino.type_hints import IntegerArray
 
+# `quansino.mc` imports this module, so the contexts are only imported for type
+# checking (or inside functions): a module-level import would be circular whenever
+# `quansino.moves` is the first sub-package to be imported.
 OperationType = TypeVar("OperationType", bound=Operation)
-ContextType = TypeVar("ContextType", bound=DisplacementContext)
+ContextType = TypeVar("ContextType", bound="DisplacementContext")
 
 
 class DisplacementMove(
@@ -270,7 +272,7 @@ class DisplacementMove(
 
 
 IntegratorType = TypeVar("IntegratorType", bound=Integrator)
-HContextType = TypeVar("HContextType", bound=HamiltonianDisplacementContext)
+HContextType = TypeVar("HContextType", bound="HamiltonianDisplacementContext")
 
 
 class HamiltonianDisplacementMove(
@@ -325,6 +327,8 @@ class HamiltonianDisplacementMove(
         bool
             Whether the move was valid.
         """
+        from quansino.mc.contexts import Context
+
         atoms = context.atoms
         old_positions = atoms.get_positions()
         old_momenta = atoms.get_momenta()
